@@ -541,6 +541,13 @@ func (fd *Client) BatchGetItem(ctx context.Context, input *dynamodb.BatchGetItem
 		return nil, fd.forceFailureErr
 	}
 
+	for tableName := range input.RequestItems {
+		// a request that names a table that does not exist fails as a whole
+		if _, err := fd.getTable(tableName); err != nil {
+			return nil, mapKnownError(err)
+		}
+	}
+
 	responses := make(map[string][]map[string]types.AttributeValue, len(input.RequestItems))
 	unprocessed := make(map[string]types.KeysAndAttributes, len(input.RequestItems))
 
